@@ -107,6 +107,10 @@ __ldn_to_ummulqura(dt_ldn_t d)
 	dt_ummulqura_t res = {0};
 	size_t y, m;
 
+	if (UNLIKELY(d < _bom[0U][0U])) {
+		/* before the first tabulated month */
+		return res;
+	}
 	for (y = 0U; y < countof(_bom) && _bom[y][0U] <= d; y++);
 	res.y = --y + UMMULQURA_BASE;
 	for (m = 0U; m < 12 && _bom[y][m] <= d; m++);
